@@ -7,7 +7,7 @@ The rules live in helper modules:
   c01_eval.py    R4  evaluation order / short-circuit, R5 dispatch
   c01_imm.py     R6  immutability (may-alias effect analysis)
   c01_lit.py     R7  literals, R8 documented method sets
-  c01_args.py    R9  index bounds tables, R10 optional-argument presence
+  c01_args.py    R9  index bounds tables, R10 optional-argument presence, R11-R14, R15 unflattened arbitrary values, R16 range() bounds table
 """
 from __future__ import annotations
 
@@ -33,12 +33,20 @@ EXPLANATION = (
     'R11: get_variable() and subproject.get_variable() return <interpreter>.variables[name] on the found row (not an accessor that also resolves builtins or raises another exception) and handle exactly KeyError on the miss row. '
     'R12: in the evaluator a raising `key in table` guard and the following store into the same table use the same key expression (duplicate dictionary keys / keyword arguments are errors). R13: the regex of str.underscorify matches exactly the single characters outside [a-zA-Z0-9]. '
     'R14: the scan loop of array.contains() (also its recursive helper) returns early only with a value known to be true on that path. R7 also: dict.values() takes its order from sorted(keys). '
-    'Does NOT decide: the value a particular program yields, arithmetic on concrete numbers, .format()/f-string rendering, semantics delegated to Python str/list methods, '
+    'R15: function_call and method_call flatten positional arguments only under `not getattr(callee, FLAG, False)` with one and the same FLAG, and every core-language callable whose typed_pos_args '
+    'admit `object` (set_variable, get_variable, subproject.get_variable, array.contains/get, dict.get, str.format) carries the decorator that sets FLAG (an array value stays that array). '
+    'R16: the decision table of range() over the ordering worlds of (start, 0), (stop, start), (step, 1) for the three call forms raises exactly for start < 0, stop < start or step < 1 and otherwise returns '
+    'RangeHolder(start, stop, step) with the defaults start=0, step=1 (docs/yaml/functions/range.yaml). '
+    'Helpers are read by role, not by name: private/static methods of the MRO and private module-level functions are spliced in (also at `raise helper()` and in argument position), '
+    '`getattr(x, \'lit\')` is `x.lit`, loops over constant tables are unrolled, tables built by one-expression builder functions are folded. '
+    'Does NOT decide: the value a particular program yields, arithmetic on concrete numbers, .format()/f-string rendering (including which nested strings stringifyUserArguments quotes: '
+    'the reference gives no table for that text), semantics delegated to Python str/list methods, '
     'subdir()/subproject() scoping, and that `int` operand guards also admit Python bools (documented legacy for integers).')
 ASSUMPTIONS = [
     'Python operators on int/str/list/dict/range and codecs unicode_escape behave as documented',
     'callees that are not resolved inside the analysed class return fresh values (R6 may-alias analysis); unknown idioms end undecided, not violated',
     'the reference ladder / operator / typing tables in sa/rules/c01_*.py encode Syntax.md and docs/yaml/elementary/*.yml (provenance noted at each table)',
+    'every decorator wrapper of interpreterbase/decorators.py uses functools.wraps, so a flag set by noArgsFlattening anywhere in the decorator stack is visible on the registered callable (R15)',
     'token ids are read off the folded lexer tables under the selection discipline whose shape R2 checks in Lexer.lex (specifications in list order, first match wins, single characters as fallback, keyword promotion)',
 ]
 TECHNIQUE = ('decision tables by path enumeration with path-wise def-use resolution (normalised outcome/effect shapes compared with reference shapes, operands by role), '
@@ -60,4 +68,6 @@ RULES = [
     Rule('C01.R13', 'str.underscorify replaces exactly the characters outside [a-zA-Z0-9]', c01_args.r13),
     Rule('C01.R14', 'array.contains() scans every element: the search loop is left early only on success', c01_args.r14),
     Rule('C01.R11', 'get_variable(name, fallback) reads exactly the variable table; a miss is the KeyError that selects the fallback', c01_args.r11),
+    Rule('C01.R15', 'a core-language callable that takes an arbitrary value (object) receives its positional arguments unflattened', c01_args.r15),
+    Rule('C01.R16', 'range() fails exactly for start < 0, stop < start or step < 1; documented defaults', c01_args.r16),
 ]
